@@ -57,7 +57,7 @@ def run_stream_case(case):
     out = Outcome()
     stats = {"two_blocked": 0, "cancel_near_handover": 0, "last_close_with_blocked": 0, "double_close": 0,
              "clone_after_close": 0, "interrupted_send": 0, "cancelled_recv": 0, "native": 0,
-             "native_cancel_after_handover": 0, "excluded_f8_window": 0}
+             "native_cancel_after_handover": 0, "excluded_f8_window": 0, "closed_with_own_op_in_flight": 0}
     maxbuf = case["max"]
 
     async def body(sim):
@@ -68,6 +68,7 @@ def run_stream_case(case):
         s_open = [True] * len(sends)
         r_open = [True] * len(recvs)
         busy_s, busy_r = {}, {}       # handle index -> number of operations in flight
+        dirty_s, dirty_r = set(), set()   # handles closed while one of their own operations was in flight
         seq = [0]
         itemseq = {}
         accepted, interrupted = [], []
@@ -180,12 +181,14 @@ def run_stream_case(case):
                 interrupted.append(item)
                 return
             except (ClosedResourceError, BrokenResourceError) as e:
-                classify_send_exc(e, h, "send", open_at_call, None)
+                if hidx not in dirty_s:
+                    classify_send_exc(e, h, "send", open_at_call, None)
+                interrupted.append(item)
                 return
             if not ok:
                 interrupted.append(item)     # AnyIO cancellation absorbed by the op scope
                 return
-            if not open_at_call:
+            if not open_at_call and hidx not in dirty_s:
                 out.bad("c13:closed-handle-accepted", "send", "")
             accepted.append(item)
             for other in live(blocked_send):
@@ -261,15 +264,15 @@ def run_stream_case(case):
                 sim.native_req.discard(aid)
                 return
             except EndOfStream:
-                eos_check("receive", open_at_call)
+                eos_check("receive", open_at_call or hidx in dirty_r)
                 return
             except ClosedResourceError:
-                if open_at_call:
+                if open_at_call and hidx not in dirty_r:
                     out.bad("c13:closed-error-on-open-handle", "receive", "")
                 return
             if got is None:
                 return
-            if not open_at_call:
+            if not open_at_call and hidx not in dirty_r:
                 out.bad("c13:closed-handle-accepted", "receive", "")
             receipts.append((got[0], aid, me[1], sim.now(), me[0]))
             for other in live(blocked_recv):
@@ -291,7 +294,10 @@ def run_stream_case(case):
             lst, flags, busy = (sends, s_open, busy_s) if side == "s" else (recvs, r_open, busy_r)
             idx = hi % len(lst)
             if busy.get(idx):
-                return          # soundness: a handle is not closed while one of its own operations is in flight
+                # closing a handle while one of its own operations is in flight: that operation's own outcome is
+                # not judged (ok / ClosedResourceError both accepted), everything else still is
+                (dirty_s if side == "s" else dirty_r).add(idx)
+                stats["closed_with_own_op_in_flight"] += 1
             was_open = flags[idx]
             if not was_open:
                 stats["double_close"] += 1
